@@ -1077,4 +1077,22 @@ theorem lstsqForwardCod_ok (m n r : Nat) (Q Z Ti : Nat → Nat → ℝ) (b : Nat
   unfold lstsqOfCod
   rw [toVec_pinvForward, toVec_pinvForward, toVec_pinvForward, toMat_transpose, mulVec_mulVec, mulVec_mulVec]
 
+/-! ## uniqueness: every kernel that satisfies the Moore–Penrose contract returns the same vector -/
+
+/-- two Moore–Penrose inverses of the same matrix give the same solution vector for every right-hand side -/
+theorem isPinv_solution_unique {m n : ℕ} (A : Matrix (Fin m) (Fin n) ℝ) (P₁ P₂ : Matrix (Fin n) (Fin m) ℝ) (b : Fin m → ℝ)
+    (h₁ : IsPinv A P₁) (h₂ : IsPinv A P₂) : P₁ *ᵥ b = P₂ *ᵥ b := by
+  have n₁ := penrose_normal A P₁ b h₁.h1 h₁.h3
+  have n₂ := penrose_normal A P₂ b h₂.h1 h₂.h3
+  have a := (isPinv_minnorm A P₁ b h₁).2 (P₂ *ᵥ b) n₂
+  have c := (isPinv_minnorm A P₂ b h₂).2 (P₁ *ᵥ b) n₁
+  exact (a.2 (le_antisymm c.1 a.1)).symm
+
+/-- … hence the Moore–Penrose inverse itself is unique -/
+theorem isPinv_unique {m n : ℕ} (A : Matrix (Fin m) (Fin n) ℝ) (P₁ P₂ : Matrix (Fin n) (Fin m) ℝ)
+    (h₁ : IsPinv A P₁) (h₂ : IsPinv A P₂) : P₁ = P₂ := by
+  ext i j
+  have h := congrFun (isPinv_solution_unique A P₁ P₂ (Pi.single j 1) h₁ h₂) i
+  simpa [mulVec_single_one] using h
+
 end PP.LinSolve
